@@ -92,8 +92,15 @@ func (fr *Frame) wrScalar(st *State, v, val string) {
 func (fr *Frame) havocWhole(st *State, v string) {
 	fr.checkLoopWrite(v, "")
 	fr.fc.logWrite(v, "")
+	old := fr.fc.get(st, v)
 	nv := fr.fc.freshConst(v, fr.fc.sortOfVar(v))
 	fr.fc.set(st, v, nv)
+	if strings.HasPrefix(fr.fc.sortOfVar(v), "(Array") {
+		// objects this function allocated and never let escape cannot be touched by anybody else
+		for r := range fr.fc.localRefs {
+			fr.fc.addFact("true", sEq(sSel(nv, r), sSel(old, r)))
+		}
+	}
 	fr.fc.pendingClosed = append(fr.fc.pendingClosed, [2]string{nv, v})
 }
 
@@ -588,6 +595,7 @@ func (fr *Frame) mergeVals(preds []*ssa.BasicBlock, to *ssa.BasicBlock, vals []V
 	for i := len(preds) - 2; i >= 0; i-- {
 		acc = sIte(fr.edgeGuard(preds[i], to), terms[i], acc)
 	}
+	fr.fc.escape(acc)
 	c := fr.fc.freshConst("phi", sortOf(t))
 	fr.fc.addFact("true", sEq(c, acc))
 	return Val{S: c, Typ: t}
@@ -1028,6 +1036,7 @@ func (fr *Frame) exec(b *ssa.BasicBlock, st *State, ins ssa.Instruction) {
 		if l.Kind == LObj && l.Path == "" {
 			fr.ob("nil", fr.src(x.Pos(), "store"), b, sNot(sEq(l.Base, "0")), x.Pos())
 		}
+		fc.escapeVal(fr.val(x.Val))
 		fr.storeLoc(st, l, fr.val(x.Val))
 	case *ssa.IndexAddr:
 		fr.execIndexAddr(b, st, x)
@@ -1049,6 +1058,12 @@ func (fr *Frame) exec(b *ssa.BasicBlock, st *State, ins ssa.Instruction) {
 		fr.wrRow(st, heapMapP(mt), r, "((as const (Array Int Bool)) false)")
 		fr.wrRow(st, heapMapV(mt), r, fmt.Sprintf("((as const (Array Int %s)) %s)", sortOf(m.Elem()), zeroTerm(m.Elem())))
 		fr.env[x] = Val{S: r, Typ: mt}
+		if activeLogs[fc] == nil {
+			if fc.localRefs == nil {
+				fc.localRefs = map[string]bool{}
+			}
+			fc.localRefs[r] = true
+		}
 	case *ssa.MakeChan:
 		r := fr.alloc(st, "chan")
 		fr.env[x] = Val{S: r, Typ: x.Type()}
@@ -1057,6 +1072,7 @@ func (fr *Frame) exec(b *ssa.BasicBlock, st *State, ins ssa.Instruction) {
 		fr.env[x] = Val{S: r, Typ: x.Type()}
 		fc.closures[r] = x
 	case *ssa.MakeInterface:
+		fc.escapeVal(fr.val(x.X))
 		fr.env[x] = fr.makeIface(st, fr.val(x.X), x.Type())
 	case *ssa.ChangeInterface:
 		v := fr.val(x.X)
@@ -1091,6 +1107,7 @@ func (fr *Frame) exec(b *ssa.BasicBlock, st *State, ins ssa.Instruction) {
 		fr.regMap(mt)
 		fr.ob("mapwrite", fr.src(x.Pos(), "map"), b, sNot(sEq(m, "0")), x.Pos())
 		k := fr.scalar(fr.val(x.Key))
+		fc.escapeVal(fr.val(x.Value))
 		fr.wr2(st, heapMapP(mt), m, k, "true")
 		fr.wr2(st, heapMapV(mt), m, k, fr.scalar(fr.val(x.Value)))
 	case *ssa.Range:
@@ -1128,6 +1145,7 @@ func (fr *Frame) exec(b *ssa.BasicBlock, st *State, ins ssa.Instruction) {
 		var vals []Val
 		for _, r := range x.Results {
 			vals = append(vals, fr.val(r))
+			fc.escapeVal(fr.val(r))
 		}
 		fr.rets = append(fr.rets, retSite{blk: b, guard: fr.reach[b.Index], st: st.clone(), vals: vals, pos: x.Pos()})
 	case *ssa.Panic:
@@ -1430,7 +1448,7 @@ func (fr *Frame) newSliceFresh(st *State, el types.Type, n string, t types.Type,
 	fc.regVar(h, arr2Sort(sortOf(el)))
 	fr.wrRow(st, h, a, fc.freshConst("row", arrSort(sortOf(el))))
 	s := fc.freshConst("sl_"+hint, "Int")
-	fc.addFact("true", sAnd(sEq(sApp("sl_arr", s), a), sEq(sApp("sl_off", s), "0"), sEq(sApp("sl_len", s), n), sApp(">=", sApp("sl_cap", s), n), sApp("<=", sApp("sl_cap", s), "4611686018427387904"), sApp(">=", n, "0"), sNot(sEq(s, "0"))))
+	fc.addFact("true", sAnd(sEq(sApp("sl_arr", s), a), sEq(sApp("sl_off", s), "0"), sEq(sApp("sl_len", s), n), sApp(">=", sApp("sl_cap", s), n), sApp("<=", sApp("sl_cap", s), "281474976710656"), sApp(">=", n, "0"), sNot(sEq(s, "0"))))
 	return Val{S: s, Typ: t}
 }
 
